@@ -750,6 +750,137 @@ def opValues (j : Json) : Except String Json := do
       pure <| Json.mkObj [("observed", jPairs (Values.observe s2 obj))]
   | _ => throw s!"bad values op {f}"
 
+/-! #### C11 frozen mapping in a mutable heap (`Swh.Frozen`) -/
+
+namespace FrozenDrv
+open Swh.Frozen
+
+/-- caller containers in order of creation: (location in the model's heap, is it a dict?).
+    The JSON protocol names caller containers by CREATION INDEX (0-based, dicts and lists share
+    one numbering), translated here to the model's locations. -/
+abbrev Created := Array (Loc × Bool)
+
+def locOf (cr : Created) (idx : Nat) (wantDict : Bool) : Option Loc :=
+  match cr[idx]? with
+  | some (l, isD) => if isD == wantDict then some l else none
+  | none => none
+
+/-- `{"a":n}` or `{"l":creation index of a caller list}`; `none`: the reference names nothing
+    (or a dict) -/
+def parseV (cr : Created) (j : Json) : Except String (Option Val) :=
+  match j.getObjVal? "a", j.getObjVal? "l" with
+  | .ok v, _ => do let n ← v.getNat?; pure (some (.atom n))
+  | _, .ok v => do let i ← v.getNat?; pure ((locOf cr i false).map Val.listRef)
+  | _, _ => throw "bad frozen value"
+
+def parsePairs (cr : Created) (a : Array Json) : Except String (Option (List (Key × Val))) := do
+  let ps ← a.toList.mapM (fun p => do
+    let kv ← p.getArr?
+    if kv.size != 2 then throw "bad frozen pair"
+    let k ← kv[0]!.getNat?
+    let v ← parseV cr kv[1]!
+    pure (v.map (fun v => (k, v))))
+  pure (ps.mapM id)
+
+def getNats (j : Json) (k : String) : Except String (List Nat) := do
+  (← getArr j k).toList.mapM (fun x => x.getNat?)
+
+/-- `none`: a creation index that does not exist yet or names a container of the wrong kind -/
+def parseOp (cr : Created) (j : Json) : Except String (Option Op) := do
+  let o ← getS j "o"
+  match o with
+  | "new_dict" => do
+      let its ← parsePairs cr (← getArr j "items")
+      pure (its.map Op.newDict)
+  | "new_list" => do pure (some (.newList (← getNats j "xs")))
+  | "dict_set" => do
+      let d := locOf cr (← getN j "d") true
+      let k ← getN j "k"
+      let v ← parseV cr (← j.getObjVal? "v")
+      pure (do let d ← d; let v ← v; pure (.dictSet d k v))
+  | "dict_del" => do
+      let d := locOf cr (← getN j "d") true
+      let k ← getN j "k"
+      pure (d.map (fun d => .dictDel d k))
+  | "dict_clear" => do
+      pure ((locOf cr (← getN j "d") true).map Op.dictClear)
+  | "list_append" => do
+      let l := locOf cr (← getN j "l") false
+      let n ← getN j "n"
+      pure (l.map (fun l => .listAppend l n))
+  | "list_set_all" => do
+      let l := locOf cr (← getN j "l") false
+      let xs ← getNats j "xs"
+      pure (l.map (fun l => .listSetAll l xs))
+  | "from_dict" => do
+      pure ((locOf cr (← getN j "src") true).map Op.fromDict)
+  | "from_frozen" => do pure (some (.fromFrozen (← getN j "i")))
+  | "from_pairs" => do
+      let ps ← parsePairs cr (← getArr j "ps")
+      pure (ps.map Op.fromPairs)
+  | "copy_pop" => do pure (some (.copyPop (← getN j "i") (← getN j "k")))
+  | "lookup" => do pure (some (.lookup (← getN j "i") (← getN j "k")))
+  | _ => throw s!"bad frozen op {o}"
+
+def jNat (n : Nat) : Json := Json.num (JsonNumber.fromNat n)
+
+def jR : RVal → Json
+  | .atom n => Json.mkObj [("a", jNat n)]
+  | .list xs => Json.mkObj [("l", Json.arr (xs.map jNat).toArray)]
+
+def jROpt : Option RVal → Json
+  | none => Json.null
+  | some r => jR r
+
+def jView (v : List (Key × RVal)) : Json :=
+  Json.arr (v.map (fun kv => Json.arr #[jNat kv.1, jR kv.2])).toArray
+
+def jViews (h : Heap) : Json := Json.arr ((views h).map jView).toArray
+
+def jInvalid : Json := Json.mkObj [("invalid", Json.bool true)]
+
+def parseDisc (j : Json) : Except String Discipline :=
+  match j.getObjVal? "discipline" with
+  | .ok (Json.str "deep") => pure .deep
+  | .ok (Json.str "shallow") => pure .shallow
+  | .ok (Json.str "alias") => pure .alias
+  | .ok Json.null => pure .deep
+  | .ok _ => throw "bad discipline"
+  | .error _ => pure .deep
+
+structure St where
+  heap : Heap
+  created : Created
+  outs : Array Json
+  trace : Array Json
+
+def stepJ (disc : Discipline) (st : St) (j : Json) : Except String St := do
+  match ← parseOp st.created j with
+  | none => pure { st with outs := st.outs.push jInvalid, trace := st.trace.push (jViews st.heap) }
+  | some op =>
+    let r := stepD disc st.heap op
+    let (created, out) : Created × Json :=
+      match op, r.2 with
+      | .newDict _, .loc l => (st.created.push (l, true), Json.mkObj [("c", jNat st.created.size)])
+      | .newList _, .loc l => (st.created.push (l, false), Json.mkObj [("c", jNat st.created.size)])
+      | _, .obj i => (st.created, Json.mkObj [("obj", jNat i)])
+      | _, .popped i v => (st.created, Json.mkObj [("obj", jNat i), ("popped", jROpt v)])
+      | _, .value v => (st.created, Json.mkObj [("value", jROpt v), ("found", Json.bool v.isSome)])
+      | _, .unit => (st.created, Json.mkObj [])
+      | _, .loc l => (st.created, Json.mkObj [("loc", jNat l)])
+      | _, .invalid => (st.created, jInvalid)
+    pure { heap := r.1, created := created, outs := st.outs.push out,
+           trace := st.trace.push (jViews r.1) }
+
+/-- `{"op":"frozen_run","discipline":…,"ops":[…]}` → `{"outs":…,"views":…,"trace":…}` -/
+def opRun (j : Json) : Except String Json := do
+  let disc ← parseDisc j
+  let ops ← getArr j "ops"
+  let st ← ops.foldlM (stepJ disc) ⟨init, #[], #[], #[]⟩
+  pure <| Json.mkObj [("outs", Json.arr st.outs), ("views", jViews st.heap), ("trace", Json.arr st.trace)]
+
+end FrozenDrv
+
 /-! #### C12 dictionary serialisation -/
 
 namespace SerdeDrv
@@ -845,6 +976,7 @@ def dispatch (op : String) (j : Json) : Except String Json :=
   | "fs_read" => FsDrv.opRead j
   | "fs_normalize" => FsDrv.opNormalize j
   | "values" => opValues j
+  | "frozen_run" => FrozenDrv.opRun j
   | "serde_roundtrip" => SerdeDrv.opRoundTrip j
   | _ => throw s!"unknown op {op}"
 
